@@ -2,6 +2,7 @@
 //!
 //!   dl-c11 mem  --seed S --n N            scenarios on `Resources::from_memory()`
 //!   dl-c11 disk --seed S --n N --root DIR  scenarios on real directories below DIR
+//!   dl-c11 luaurc --seed S --n N          nested `.luaurc` aliases: forced processing orders, runs in sequence on one thread
 //!   dl-c11 one  --seed S --case K [--root DIR]   a single scenario (replay)
 //!
 //! One JSON line per scenario: the generated tree, the options, and for the run with all the
@@ -536,6 +537,206 @@ fn run_scenario(scenario: &Scenario, disk_root: Option<&Path>) -> Value {
     record
 }
 
+
+// ---------------------------------------------------------------------------------------------
+// `.luaurc` scenarios: nested configurations overriding an alias, processed in forced orders and
+// in sequences of runs on one thread
+
+const RC_DIRS: [&str; 4] = ["src", "src/nested", "src/nested/deep", "src/other"];
+const LIBS: [&str; 3] = ["a", "b", "c"];
+
+struct RcScenario {
+    id: u64,
+    config: &'static str,
+    /// two trees with the same Lua files and different aliases
+    trees: [BTreeMap<String, String>; 2],
+    /// per tree: file -> expected library letter (None: no `.luaurc` applies, the file fails)
+    expected: [BTreeMap<String, Option<&'static str>>; 2],
+}
+
+fn rc_config(name: &str) -> String {
+    match name {
+        "bundle-path" => r#"{ "rules": [], "generator": "dense", "bundle": { "require_mode": "path" } }"#.to_owned(),
+        "bundle-luau" => r#"{ "rules": [], "generator": "dense", "bundle": { "require_mode": "luau" } }"#.to_owned(),
+        _ => r#"{ "rules": [{ "rule": "convert_require", "current": "path", "target": "luau" }], "generator": "dense" }"#.to_owned(),
+    }
+}
+
+fn up_to_src(dir: &str) -> String {
+    let depth = dir.split('/').count() - 1;
+    "../".repeat(depth)
+}
+
+fn generate_rc(seed: u64, id: u64) -> RcScenario {
+    let mut rng = Rng::new(seed.wrapping_mul(104_729).wrapping_add(id).wrapping_add(0xC11));
+    let config = *rng.pick(&["bundle-path", "bundle-luau", "convert-require"]);
+    // which directories have their own `.luaurc`, and which Lua files exist (shared by both trees)
+    let has_rc: Vec<bool> = vec![rng.chance(5, 6), rng.chance(1, 2), rng.chance(1, 2), rng.chance(1, 3)];
+    let mut lua_files = Vec::new();
+    for dir in RC_DIRS {
+        lua_files.push(format!("{}/f0.lua", dir));
+        if rng.chance(1, 2) {
+            lua_files.push(format!("{}/g0.luau", dir));
+        }
+    }
+    let mut trees = [BTreeMap::new(), BTreeMap::new()];
+    let mut expected = [BTreeMap::new(), BTreeMap::new()];
+    for which in 0..2 {
+        let mut alias_of_dir: Vec<Option<&'static str>> = Vec::new();
+        for (index, dir) in RC_DIRS.iter().enumerate() {
+            if has_rc[index] {
+                let letter = *rng.pick(&LIBS);
+                alias_of_dir.push(Some(letter));
+                trees[which].insert(
+                    format!("{}/.luaurc", dir),
+                    format!("{{ \"aliases\": {{ \"Lib\": \"{}libs_{}\" }} }}\n", up_to_src(dir), letter),
+                );
+            } else {
+                alias_of_dir.push(None);
+            }
+        }
+        for letter in LIBS {
+            trees[which].insert(
+                format!("src/libs_{}/value.lua", letter),
+                format!("return \"LIB_{}\"\n", letter.to_uppercase()),
+            );
+        }
+        for (n, file) in lua_files.iter().enumerate() {
+            trees[which].insert(
+                file.clone(),
+                format!("local v = require(\"@Lib/value\")\nreturn v .. \"{}\"\n", n),
+            );
+            // the closest `.luaurc`: the directory of the file, then its ancestors
+            let dir = Path::new(file).parent().unwrap().display().to_string();
+            let closest = RC_DIRS
+                .iter()
+                .enumerate()
+                .filter(|(index, d)| has_rc[*index] && (dir == **d || dir.starts_with(&format!("{}/", d))))
+                .max_by_key(|(_, d)| d.len())
+                .and_then(|(index, _)| alias_of_dir[index]);
+            expected[which].insert(file.clone(), closest);
+        }
+        trees[which].insert(CONFIG.to_owned(), rc_config(config));
+    }
+    RcScenario { id, config, trees, expected }
+}
+
+fn rc_resources(tree: &BTreeMap<String, String>) -> Resources {
+    let resources = Resources::from_memory();
+    for (path, content) in tree {
+        resources.write(path, content).unwrap();
+    }
+    resources
+}
+
+fn rc_outputs(resources: &Resources) -> BTreeMap<String, String> {
+    resources
+        .walk("out")
+        .map(|path| (path.display().to_string(), hex(resources.get(&path).unwrap_or_default().as_bytes())))
+        .collect()
+}
+
+fn rc_options() -> Options {
+    Options::new("src").with_output("out").with_configuration_at(CONFIG)
+}
+
+/// `darklua_core::process`: the enumeration order of the resources
+fn rc_run_collect(tree: &BTreeMap<String, String>) -> Value {
+    let resources = rc_resources(tree);
+    match catch_unwind(AssertUnwindSafe(|| darklua_core::process(&resources, rc_options()))) {
+        Ok(Ok(worker)) => json!({ "out": rc_outputs(&resources), "items": tree_of_items(&worker) }),
+        Ok(Err(err)) => json!({ "process_error": err.to_string() }),
+        Err(_) => json!({ "panic": true }),
+    }
+}
+
+/// the sources added one by one in the given order, then one `WorkerTree::process`
+fn rc_run_ordered(tree: &BTreeMap<String, String>, order: &[String]) -> Value {
+    let resources = rc_resources(tree);
+    let outcome = catch_unwind(AssertUnwindSafe(|| {
+        let mut worker = darklua_core::WorkerTree::default();
+        for source in order {
+            let relative = Path::new(source).strip_prefix("src").unwrap();
+            worker.add_source(source, Some(Path::new("out").join(relative)));
+        }
+        worker.process(&resources, rc_options()).map(|_| worker)
+    }));
+    match outcome {
+        Ok(Ok(worker)) => json!({ "out": rc_outputs(&resources), "items": tree_of_items(&worker) }),
+        Ok(Err(err)) => json!({ "process_error": err.to_string() }),
+        Err(_) => json!({ "panic": true }),
+    }
+}
+
+fn in_new_thread<T: Send + 'static>(work: impl FnOnce() -> T + Send + 'static) -> T {
+    std::thread::spawn(work).join().expect("thread")
+}
+
+fn run_rc_scenario(scenario: &RcScenario) -> Value {
+    let mut record = json!({
+        "id": scenario.id,
+        "config": scenario.config,
+        "trees": scenario.trees.iter().map(|tree| {
+            tree.iter().filter(|(p, _)| p.ends_with(".luaurc")).map(|(p, c)| (p.clone(), Value::String(c.trim().to_owned()))).collect::<serde_json::Map<_, _>>()
+        }).collect::<Vec<_>>(),
+        "files": scenario.trees.iter().map(|tree| {
+            tree.iter().map(|(p, c)| (p.clone(), Value::String(hex(c.as_bytes())))).collect::<serde_json::Map<_, _>>()
+        }).collect::<Vec<_>>(),
+        "expected": scenario.expected.iter().map(|e| {
+            e.iter().map(|(p, l)| (p.clone(), json!(l))).collect::<serde_json::Map<_, _>>()
+        }).collect::<Vec<_>>(),
+    });
+    let sources = |tree: &BTreeMap<String, String>| -> Vec<String> {
+        tree.keys().filter(|p| is_lua(p)).cloned().collect()
+    };
+    // ---- one run, the files enumerated in several orders; every run on its own thread
+    let mut orders = serde_json::Map::new();
+    for which in 0..2 {
+        let tree = scenario.trees[which].clone();
+        let ascending = sources(&tree);
+        let mut descending = ascending.clone();
+        descending.reverse();
+        let mut rng = Rng::new(scenario.id.wrapping_mul(31).wrapping_add(which as u64));
+        let mut shuffled = ascending.clone();
+        for i in (1..shuffled.len()).rev() {
+            shuffled.swap(i, rng.below(i + 1));
+        }
+        // deepest directories first / last: the orders in which a parent's configuration is
+        // resolved before or after the one of a nested directory
+        let mut shallow_first = ascending.clone();
+        shallow_first.sort_by_key(|p| (p.matches('/').count(), p.clone()));
+        let mut deep_first = shallow_first.clone();
+        deep_first.reverse();
+        let t = tree.clone();
+        orders.insert(format!("{}:collect", which), in_new_thread(move || rc_run_collect(&t)));
+        for (name, order) in [
+            ("ascending", ascending),
+            ("descending", descending),
+            ("shuffled", shuffled),
+            ("shallow-first", shallow_first),
+            ("deep-first", deep_first),
+        ] {
+            let t = tree.clone();
+            orders.insert(
+                format!("{}:{}", which, name),
+                in_new_thread(move || rc_run_ordered(&t, &order)),
+            );
+        }
+    }
+    record["orders"] = Value::Object(orders);
+    // ---- runs one after the other ON ONE THREAD: A, B, B, A; compared with each tree alone
+    let trees = scenario.trees.clone();
+    record["sequence"] = in_new_thread(move || {
+        json!([
+            rc_run_collect(&trees[0]),
+            rc_run_collect(&trees[1]),
+            rc_run_collect(&trees[1]),
+            rc_run_collect(&trees[0]),
+        ])
+    });
+    record
+}
+
 fn main() {
     let args: Vec<String> = std::env::args().skip(1).collect();
     let mode = args.first().cloned().unwrap_or_default();
@@ -558,6 +759,11 @@ fn main() {
                 println!("{}", run_scenario(&scenario, Some(&root)));
             }
         }
+        "luaurc" => {
+            for id in 0..count {
+                println!("{}", run_rc_scenario(&generate_rc(seed, id)));
+            }
+        }
         "one" => {
             let id = arg_u64(&args, "--case", 0);
             let disk = root.is_some();
@@ -565,7 +771,7 @@ fn main() {
             println!("{}", run_scenario(&scenario, root.as_deref()));
         }
         _ => {
-            eprintln!("usage: dl-c11 mem|disk|one --seed S --n N [--root DIR]");
+            eprintln!("usage: dl-c11 mem|disk|luaurc|one --seed S --n N [--root DIR]");
             std::process::exit(2);
         }
     }
